@@ -565,7 +565,11 @@ Inductive expr :=
 | ECall (c : castfn) (a : expr).
 
 Inductive mcmd := MNotify | MThread | MWaitThread | MDelete.
-Inductive ccmd := CGoto | CThread | CWaitThread | CWait | CEnd.
+(* CKill: `waitthread kill local <how> <depth>` (alone, or inside `local.t = (1 + (...)) * 2`):
+   the running thread calls, and waits for, a thread that - depth calls deep - destroys the
+   caller with delete / remove / immediateremove while the caller's VM is suspended inside
+   the call instruction. *)
+Inductive ccmd := CGoto | CThread | CWaitThread | CWait | CEnd | CKill.
 
 Inductive stmt :=
 | SPrint (e : expr)
@@ -673,6 +677,13 @@ Definition wait_flow (a : aval) : option (list wclass * flow) :=
     end
   else Some ([WCast], FNext).
 
+(* nesting depth of the deleted-by-callee family: 1, 2 or 3 *)
+Definition kill_depth (a : aval) : option nat :=
+  match a with
+  | Exact Ri1 => Some 1%nat | Exact Ri2 => Some 2%nat | Exact Ri3 => Some 3%nat
+  | _ => None
+  end.
+
 Definition step_method (c : mcmd) (nargs : nat) (r : aval) (s : list aval) (m : mstate) : option mstate :=
   let arg := match nargs with O => None | S _ => hd_error s end in
   let rest := skipn nargs s in
@@ -694,6 +705,14 @@ Definition step_cmd (c : ccmd) (nargs : nat) (s : list aval) (m : mstate) : opti
   if Nat.leb nargs (length s) then
     match c, arg with
     | CEnd, _ => Some (mkM rest (warn m) (lines m) FEnd)
+    | CKill, Some a =>
+      (* the innermost callee prints one line and deletes the caller: the caller has ended,
+         nothing of the statement runs afterwards; the callees, which nobody waits for any
+         more, are destroyed with it *)
+      match kill_depth a with
+      | Some _ => Some (mkM rest (warn m) (lines m + 1) FEnd)
+      | None => None
+      end
     | CWait, Some a =>
       match wait_flow a with
       | None => None
